@@ -443,6 +443,8 @@ func checkC13(e *Engine, r *Report) {
 		ccgT := e.Named(pkgTA, "cachedGrant")
 		// write side: cachedGrant field K <- grant field f
 		kFrom := map[*types.Var]*types.Var{}
+		kSkipped := map[*types.Var]string{} // cachedGrant field -> a path of newCachedGrant that does not fill it
+		fSkipped := map[*types.Var]string{} // grant field -> a successful path of ToGrant that does not restore it
 		isSrc := func(v ssa.Value) bool { return paramIndex(v) == 0 }
 		AllInstrs(mk, func(in ssa.Instruction) {
 			st, ok := in.(*ssa.Store)
@@ -455,6 +457,9 @@ func checkC13(e *Engine, r *Report) {
 			}
 			if src := fieldSourceOf(e, st.Val, isSrc, 0); src != nil {
 				kFrom[fieldOfAddr(fa)] = src
+				if sp := e.skippedOnSuccess(mk, in); sp != nil { // saved on every path, not only on some
+					kSkipped[fieldOfAddr(fa)] = e.pathString(sp)
+				}
 			}
 		})
 		// read side: grant field f <- cachedGrant field K  (through newGrant parameters and setters)
@@ -499,6 +504,9 @@ func checkC13(e *Engine, r *Report) {
 					if target != nil {
 						if k := fieldSourceOf(e, args[1], isCcg, 0); k != nil {
 							fFrom[target] = k
+							if sp := e.skippedOnSuccess(to, in); sp != nil {
+								fSkipped[target] = e.pathString(sp)
+							}
 						}
 					}
 				}
@@ -517,8 +525,15 @@ func checkC13(e *Engine, r *Report) {
 			}
 			k := fFrom[f]
 			ok := k != nil && kFrom[k] == f
-			r.Check("R9:cachedGrant#"+f.Name(), "R9 faithful clone", "grant."+f.Name()+" is saved into a cachedGrant field by newCachedGrant and restored from the same field by ToGrant",
-				e.Pos(to.Pos()), to, ok, "restored from "+fieldName(k)+", which is saved from "+fieldName(kFrom[k]), true)
+			wcg := "restored from " + fieldName(k) + ", which is saved from " + fieldName(kFrom[k])
+			if ok && kSkipped[k] != "" {
+				ok, wcg = false, "newCachedGrant can leave "+fieldName(k)+" unfilled: "+kSkipped[k]
+			}
+			if ok && fSkipped[f] != "" {
+				ok, wcg = false, "a successful ToGrant can leave it unrestored: "+fSkipped[f]
+			}
+			r.Check("R9:cachedGrant#"+f.Name(), "R9 faithful clone", "grant."+f.Name()+" is saved into a cachedGrant field by newCachedGrant on every path and restored from the same field by every successful ToGrant",
+				e.Pos(to.Pos()), to, ok, wcg, true)
 		}
 	}
 
